@@ -10,9 +10,15 @@ from TotalDepth.LAS.core import LASRead
 
 WELL = [('STRT', 'M', '1670.0', 'START DEPTH'), ('STOP', 'M', '1669.75', 'STOP DEPTH'), ('STEP', 'M', '-0.125', 'STEP'),
         ('NULL', '', '-999.25', 'NULL VALUE'), ('COMP', '', 'ANY OIL COMPANY INC.', 'COMPANY'), ('TIME', '', '13:45:10', 'LOG TIME'),
-        ('WELL', '', 'A.10-16 #2', 'WELL'), ('RUN', '', '2', 'RUN NUMBER'), ('CASE', '', 'yes', 'CASED')]
+        ('WELL', '', 'A.10-16 #2', 'WELL'), ('RUN', '', '2', 'RUN NUMBER'), ('CASE', '', 'yes', 'CASED'), ('EGL', 'M', '-12', 'GROUND LEVEL'),
+        ('TOFF', 'S', '+30', 'TIME OFFSET')]
 CURVES = [('DEPT', 'M', '1  DEPTH'), ('GR', 'GAPI', '2  GAMMA RAY'), ('NPHI', 'V/V', '3  NEUTRON POROSITY'), ('DT', 'US/M', '4  SONIC')]
-PARAMS = [('BHT', 'DEGC', '35.5', 'BOTTOM HOLE TEMPERATURE'), ('MUD', '', 'GEL CHEM', 'MUD TYPE')]
+PARAMS = [('BHT', 'DEGC', '35.5', 'BOTTOM HOLE TEMPERATURE'), ('MUD', '', 'GEL CHEM', 'MUD TYPE'), ('TDEP', 'M', '-5', 'TIE-IN DEPTH')]
+
+
+def _same(got, want):
+    """equal AND of the same type (the value of a header line is typed: integer, float, yes/no or text)."""
+    return type(got) is type(want) and got == want
 CELLS = ['123.45', '-999.25', '1e3', '0', 'abc', '-.5', '7.', '1.2.3']
 
 
@@ -35,14 +41,14 @@ def _check(content, lay):
     las = LASRead.LASRead(io.StringIO(text), 'id')
     mark.hit()
     v = las['V']
-    if v['VERS'].valu != content['vers'] or v['WRAP'].valu != lay['wrap']:
+    if not _same(v['VERS'].valu, content['vers']) or not _same(v['WRAP'].valu, lay['wrap']):
         return False
     w = las['W']
     if len(w) != len(content['well']):
         return False
     for i, (m, u, val, d) in enumerate(content['well']):
         sl = w[i]
-        if (sl.mnem, sl.unit, sl.valu, sl.desc) != (m, u, L.typed(val), d) or w[m] != sl:
+        if (sl.mnem, sl.unit, sl.desc) != (m, u, d) or not _same(sl.valu, L.typed(val)) or w[m] != sl:
             return False
     c = las['C']
     if len(c) != len(content['curves']):
@@ -55,7 +61,7 @@ def _check(content, lay):
         p = las['P']
         for i, (m, u, val, d) in enumerate(content['params']):
             sl = p[i]
-            if (sl.mnem, sl.unit, sl.valu, sl.desc) != (m, u, L.typed(val), d):
+            if (sl.mnem, sl.unit, sl.desc) != (m, u, d) or not _same(sl.valu, L.typed(val)):
                 return False
     elif las.has_section('P'):
         return False
@@ -125,18 +131,18 @@ ALPHA = 'Az0_'
 def sect_line_chars(m0: int, m1: int, u0: int, u1: int, vkind: int, spaces: int) -> bool:
     """
     pre: 0 <= m0 <= 3 and -1 <= m1 <= 3 and -1 <= u0 <= 3 and -1 <= u1 <= 3
-    pre: 0 <= vkind <= 9 and 0 <= spaces <= 2
+    pre: 0 <= vkind <= 11 and 0 <= spaces <= 2
     pre: u0 >= 0 or u1 == -1
     pre: PART < 0 or vkind * 3 + spaces == PART
     post: _
     """
-    m0, m1, u0, u1, vkind, spaces = mark.pick(m0, 0, 3), mark.pick(m1, -1, 3), mark.pick(u0, -1, 3), mark.pick(u1, -1, 3), mark.pick(vkind, 0, 9), mark.pick(spaces, 0, 2)
+    m0, m1, u0, u1, vkind, spaces = mark.pick(m0, 0, 3), mark.pick(m1, -1, 3), mark.pick(u0, -1, 3), mark.pick(u1, -1, 3), mark.pick(vkind, 0, 11), mark.pick(spaces, 0, 2)
     with mark.untraced():
         mnem = ALPHA[m0] + (ALPHA[m1] if m1 >= 0 else '')
         unit = (ALPHA[u0] if u0 >= 0 else '') + (ALPHA[u1] if u0 >= 0 and u1 >= 0 else '')
-        value = ['', '5', '2.5', 'YES', 'no', 'abc def', '12:30', 'a.b', '-999.25', '1e3'][vkind]
+        value = ['', '5', '2.5', 'YES', 'no', 'abc def', '12:30', 'a.b', '-999.25', '1e3', '-999', '+30'][vkind]
         desc = 'the description'
         line = '%s%s.%s %s%s:%s%s' % (' ' * spaces, mnem, unit, value, ' ' * spaces, ' ' * spaces, desc)
         mark.hit()
         sl = LASRead.line_to_sect_line(line)
-        return (sl.mnem, sl.unit, sl.valu, sl.desc) == (L.typed(mnem), L.typed(unit) if unit else '', L.typed(value) if value else '', desc)
+        return (sl.mnem, sl.unit, sl.desc) == (L.typed(mnem), L.typed(unit) if unit else '', desc) and _same(sl.valu, L.typed(value) if value else '')
